@@ -257,6 +257,10 @@ fn build_raw(items: &[RItem]) -> (RawSnap, Vec<String>) {
 
 /// Applies a delta given in its integer / byte wire form to `from`.
 fn apply_wire(from: &RawSnap, w_ints: Option<&[i32]>, w_bytes: Option<&[u8]>, osz: &BTreeMap<u16, u32>, full: bool) -> Value {
+    apply_wire_obj(from, w_ints, w_bytes, osz, full).0
+}
+/// The same, also handing out the snapshot obtained (for chains: the next delta is applied to it).
+fn apply_wire_obj(from: &RawSnap, w_ints: Option<&[i32]>, w_bytes: Option<&[u8]>, osz: &BTreeMap<u16, u32>, full: bool) -> (Value, Option<RawSnap>) {
     let mut d = used_delta();
     let mut w: Vec<Warning> = Vec::new();
     let (rd, peak) = measured(|| {
@@ -272,7 +276,7 @@ fn apply_wire(from: &RawSnap, w_ints: Option<&[i32]>, w_bytes: Option<&[u8]>, os
     let inb = w_ints.map(|x| 4 * x.len()).or(w_bytes.map(|b| b.len())).unwrap_or(0);
     let mut o = json!({"read": out_of(&rd), "read_warn": warns(&w), "read_note": panic_note(&rd), "peak": peak, "inb": inb});
     if out_of(&rd) != "ok" {
-        return o;
+        return (o, None);
     }
     // the parsed delta, as it is written out again
     if full {
@@ -292,8 +296,9 @@ fn apply_wire(from: &RawSnap, w_ints: Option<&[i32]>, w_bytes: Option<&[u8]>, os
         if full {
             o["res_follow"] = follow_raw(&to);
         }
+        return (o, Some(to));
     }
-    o
+    (o, None)
 }
 
 /// What a client does with an accepted raw snapshot: write it (ints and bytes), read both back.
@@ -503,6 +508,32 @@ fn recycle_obs(s: Snap, adds2: &[Add], probes: &[(TypeId, u16)]) -> Value {
     }
     o
 }
+/// A copy (read from a wire form or obtained by a delta) is itself written out and read back:
+/// the serialisation laws hold for every snapshot, not only for built ones.
+fn rewritten(t: &Snap, probes: &[(TypeId, u16)]) -> (Value, Value) {
+    let wi = snap_ints(t);
+    let mut re = Vec::new();
+    let small = wi.as_ref().map(|x| x.len() < 400).unwrap_or(true);
+    if let Ok(x) = &wi {
+        let mut t2 = used_snap();
+        let mut w: Vec<Warning> = Vec::new();
+        let r = vh_common::guarded(CALL_MS, || t2.read_from_ints(&mut w, x));
+        re.push(json!({"form": "ints", "out": out_of(&r), "warn": warns(&w), "obs": snap_obs(&t2, probes)}));
+    }
+    if small {
+        match snap_bytes(t) {
+            Ok(b) => {
+                let mut t3 = used_snap();
+                let mut w: Vec<Warning> = Vec::new();
+                let mut buf = Vec::new();
+                let r = vh_common::guarded(CALL_MS, || t3.read(&mut w, &mut buf, &b));
+                re.push(json!({"form": "bytes", "out": out_of(&r), "warn": warns(&w), "obs": snap_obs(&t3, probes)}));
+            }
+            Err(m) => re.push(json!({"form": "bytes", "out": format!("write-{}", m), "warn": [], "obs": {}})),
+        }
+    }
+    (wres(&wi), json!(re))
+}
 fn op_snap(c: &Value) -> Value {
     let adds = adds_in(&c["adds"]);
     let adds2 = adds_in(&c["adds2"]);
@@ -536,20 +567,28 @@ fn op_snap(c: &Value) -> Value {
         let mut t = used_snap();
         let mut w: Vec<Warning> = Vec::new();
         let r = vh_common::guarded(CALL_MS, || t.read_from_ints(&mut w, x));
-        jc.push(json!({"src": "ints", "out": out_of(&r), "warn": warns(&w), "obs": snap_obs(&t, &probes)}));
+        let mut o = json!({"src": "ints", "out": out_of(&r), "warn": warns(&w), "obs": snap_obs(&t, &probes)});
         if out_of(&r) == "ok" {
+            let (rewi, re) = rewritten(&t, &probes);
+            o["rewi"] = rewi;
+            o["re"] = re;
             copies.push(("ints".to_string(), t));
         }
+        jc.push(o);
     }
     if let (Ok(x), true) = (&wb, want("bytes")) {
         let mut t = used_snap();
         let mut w: Vec<Warning> = Vec::new();
         let mut buf = Vec::new();
         let r = vh_common::guarded(CALL_MS, || t.read(&mut w, &mut buf, x));
-        jc.push(json!({"src": "bytes", "out": out_of(&r), "warn": warns(&w), "obs": snap_obs(&t, &probes)}));
+        let mut o = json!({"src": "bytes", "out": out_of(&r), "warn": warns(&w), "obs": snap_obs(&t, &probes)});
         if out_of(&r) == "ok" {
+            let (rewi, re) = rewritten(&t, &probes);
+            o["rewi"] = rewi;
+            o["re"] = re;
             copies.push(("bytes".to_string(), t));
         }
+        jc.push(o);
     }
     if want("delta") {
         // the same snapshot obtained by applying a delta that went through its byte wire form with
@@ -593,6 +632,9 @@ fn op_snap(c: &Value) -> Value {
                     let r = vh_common::guarded(CALL_MS, || t.read_with_delta(&mut w, &empty, &d2));
                     o = json!({"src": "delta", "out": out_of(&r), "warn": warns(&w), "obs": snap_obs(&t, &probes)});
                     if out_of(&r) == "ok" {
+                        let (rewi, re) = rewritten(&t, &probes);
+                        o["rewi"] = rewi;
+                        o["re"] = re;
                         copies.push(("delta".to_string(), t));
                     }
                 } else {
@@ -719,6 +761,683 @@ fn op_parse(c: &Value) -> Value {
     e
 }
 
+// ---------------------------------------------------------------- op "chain" (C09 / C10 / C11)
+// A sender builds snapshot after snapshot and diffs each against one of its earlier ones; a
+// receiver applies every delta to a snapshot it *obtained by the previous applications* (never
+// to a freshly built one). The objects live as long as the chain: the sender's Delta, the
+// receiver's Delta (applied once more by an "again" step without being read again), builders
+// recycled from old snapshot objects, receiving objects that held an older snapshot, written and
+// re-read intermediates. One event per step; indices in the steps are 1-based (hist[1] and
+// store[1] are the empty snapshot); entries more than KEEP behind the newest are forgotten
+// (the empty snapshot at index 1 stays: a delta against it is a full snapshot).
+const KEEP: usize = 4;
+enum Wire {
+    Ints(Vec<i32>),
+    Bytes(Vec<u8>),
+}
+struct Chain {
+    snap_level: bool,
+    n: usize,
+    adds2: Vec<Add>,
+    jadds2: Value,
+    probes: Vec<(TypeId, u16)>,
+    jprobes: Value,
+    s_raw: Vec<RawSnap>,
+    r_raw: Vec<RawSnap>,
+    /// the receiver chain fed by the deltas of the DDNet reference (parallel to `r_raw`)
+    ref_raw: Vec<Option<RawSnap>>,
+    s_snap: Vec<Snap>,
+    r_snap: Vec<Snap>,
+    s_delta: Delta,
+    r_delta: Delta,
+    have_delta: bool,
+    /// sender index -> receiver index holding the same snapshot (steps that were in sync)
+    pair: Vec<Option<usize>>,
+}
+fn default_adds2() -> Value {
+    json!([{"ty": [1, -1, i32::MIN, i32::MAX], "i": 9, "d": [1]}, {"ty": [0, 0, 0, 7], "i": 0, "d": [2, 3]}, {"ty": [5], "i": 1, "d": [4]}])
+}
+impl Chain {
+    fn new(c: &Value) -> Chain {
+        let steps = c["steps"].as_array().cloned().unwrap_or_default();
+        let snap_level = c["lvl"].as_str().map(|l| l == "snap").unwrap_or_else(|| steps.first().map(|s| s["lvl"] == "snap").unwrap_or(false));
+        let jadds2 = if c["adds2"].is_array() { c["adds2"].clone() } else { default_adds2() };
+        let adds2 = adds_in(&jadds2);
+        let mut probes: Vec<(TypeId, u16)> = Vec::new();
+        let push = |p: (TypeId, u16), v: &mut Vec<(TypeId, u16)>| {
+            if !v.contains(&p) {
+                v.push(p);
+            }
+        };
+        if snap_level {
+            for s in &steps {
+                for a in adds_in(&s["adds"]) {
+                    push((a.ty, a.i), &mut probes);
+                }
+            }
+            for a in &adds2 {
+                push((a.ty, a.i), &mut probes);
+            }
+            for p in c["probe"].as_array().cloned().unwrap_or_default() {
+                push((ty_in(&p[0]), p[1].as_u64().unwrap_or(0) as u16), &mut probes);
+            }
+            push((TypeId::Ordinal(3), 0), &mut probes);
+        }
+        let jprobes = Value::Array(probes.iter().map(|&(t, i)| json!({"ty": ty_out(t), "i": i})).collect());
+        Chain {
+            snap_level,
+            n: 0,
+            adds2,
+            jadds2,
+            probes,
+            jprobes,
+            s_raw: vec![RawSnap::empty()],
+            r_raw: vec![RawSnap::empty()],
+            ref_raw: vec![Some(RawSnap::empty())],
+            s_snap: vec![Snap::empty()],
+            r_snap: vec![Snap::empty()],
+            s_delta: Delta::new(),
+            r_delta: Delta::new(),
+            have_delta: false,
+            pair: vec![Some(0)],
+        }
+    }
+    fn n_hist(&self) -> usize {
+        if self.snap_level { self.s_snap.len() } else { self.s_raw.len() }
+    }
+    fn n_store(&self) -> usize {
+        if self.snap_level { self.r_snap.len() } else { self.r_raw.len() }
+    }
+    fn header(&self) -> Value {
+        let mut h = json!({"op": "chain", "lvl": if self.snap_level {"snap"} else {"raw"}});
+        if self.snap_level {
+            h["adds2"] = self.jadds2.clone();
+            h["probe"] = Value::Array(self.probes.iter().map(|&(t, i)| json!([ty_out(t), i])).collect());
+        }
+        h
+    }
+}
+/// index `j` (0-based) of a sequence of length `len` can still be referred to
+fn remembered(j: usize, len: usize) -> bool {
+    j < len && (j == 0 || j + KEEP >= len)
+}
+fn items_of_raw(s: &RawSnap) -> Vec<RItem> {
+    s.items().map(|x| RItem { t: x.raw_type_id, i: x.id, d: x.data.to_vec() }).collect()
+}
+fn raw_ints_len(s: &RawSnap) -> usize {
+    2 + s.items().map(|x| 2 + x.data.len()).sum::<usize>()
+}
+fn reuse_raw(store: &[RawSnap], rb: usize, reuse: &str) -> RawSnap {
+    match reuse {
+        "prev" if rb >= 1 => store[rb - 1].clone(),
+        "base" => store[rb].clone(),
+        _ => RawSnap::empty(),
+    }
+}
+fn reuse_snap(store: &[Snap], rb: usize, reuse: &str) -> Snap {
+    match reuse {
+        "prev" if rb >= 1 => store[rb - 1].clone(),
+        "base" => store[rb].clone(),
+        _ => Snap::empty(),
+    }
+}
+/// Reads the delta (or keeps the one read last: "again") and applies it to store[rb].
+fn chain_receive(ch: &mut Chain, rb: usize, wire: Option<(&Wire, &BTreeMap<u16, u32>)>, s: &Value) -> Value {
+    let mut o = json!({});
+    if let Some((w, osz)) = wire {
+        let mut wn: Vec<Warning> = Vec::new();
+        let d = &mut ch.r_delta;
+        let (rd, peak) = measured(|| {
+            vh_common::guarded(CALL_MS, || match w {
+                Wire::Ints(x) => d.read_from_ints(&mut wn, |t| osz.get(&t).copied(), &mut IntUnpacker::new(x)),
+                Wire::Bytes(b) => d.read(&mut wn, |t| osz.get(&t).copied(), &mut Unpacker::new(b)),
+            })
+        });
+        o["read"] = json!(out_of(&rd));
+        o["read_warn"] = warns(&wn);
+        o["read_note"] = panic_note(&rd);
+        o["peak"] = json!(peak);
+        o["inb"] = json!(match w {
+            Wire::Ints(x) => 4 * x.len(),
+            Wire::Bytes(b) => b.len(),
+        });
+        ch.have_delta = out_of(&rd) == "ok";
+        if !ch.have_delta {
+            o["stored"] = json!(false);
+            return o;
+        }
+    } else if !ch.have_delta {
+        o["read"] = json!("none");
+        o["stored"] = json!(false);
+        return o;
+    } else {
+        o["read"] = json!("kept");
+    }
+    let reuse = s["reuse"].as_str().unwrap_or("none").to_string();
+    let reread = s["reread"].as_str().unwrap_or("no").to_string();
+    let mut w2: Vec<Warning> = Vec::new();
+    if !ch.snap_level {
+        let mut to = reuse_raw(&ch.r_raw, rb, &reuse);
+        let (ra, peak2) = {
+            let Chain { r_raw, r_delta, .. } = &*ch;
+            measured(|| vh_common::guarded(CALL_MS, || to.read_with_delta(&mut w2, &r_raw[rb], r_delta)))
+        };
+        o["apply"] = json!(out_of(&ra));
+        o["apply_note"] = panic_note(&ra);
+        o["apply_warn"] = warns(&w2);
+        o["apply_peak"] = json!(peak2);
+        o["base_ints"] = json!(raw_ints_len(&ch.r_raw[rb]));
+        if out_of(&ra) != "ok" {
+            o["stored"] = json!(false);
+            return o;
+        }
+        o["res"] = raw_obs(&to);
+        let wi = snap_write_ints(&to);
+        o["res_wi"] = wres(&wi);
+        if reread != "no" {
+            // the intermediate is written out and read back: the next delta is applied to the re-read object
+            let mut t2 = reuse_raw(&ch.r_raw, rb, &reuse);
+            let mut w3: Vec<Warning> = Vec::new();
+            let r = if reread == "bytes" {
+                match snap_write_bytes(&to) {
+                    Ok(b) => {
+                        let mut buf = Vec::new();
+                        out_of(&vh_common::guarded(CALL_MS, || t2.read(&mut w3, &mut buf, &b)))
+                    }
+                    Err(m) => format!("write-{}", m),
+                }
+            } else {
+                match &wi {
+                    Ok(x) => out_of(&vh_common::guarded(CALL_MS, || t2.read_from_ints(&mut w3, x))),
+                    Err(m) => format!("write-{}", m),
+                }
+            };
+            o["rr"] = json!({"form": reread, "out": r, "warn": warns(&w3), "wi": wres(&snap_write_ints(&t2)), "crc": vh_common::guarded(CALL_MS, || t2.crc()).unwrap_or(0)});
+            if r == "ok" {
+                to = t2;
+            }
+        }
+        ch.r_raw.push(to);
+    } else {
+        let mut to = reuse_snap(&ch.r_snap, rb, &reuse);
+        let (ra, peak2) = {
+            let Chain { r_snap, r_delta, .. } = &*ch;
+            measured(|| vh_common::guarded(CALL_MS, || to.read_with_delta(&mut w2, &r_snap[rb], r_delta)))
+        };
+        o["apply"] = json!(out_of(&ra));
+        o["apply_note"] = panic_note(&ra);
+        o["apply_warn"] = warns(&w2);
+        o["apply_peak"] = json!(peak2);
+        if out_of(&ra) != "ok" {
+            o["stored"] = json!(false);
+            return o;
+        }
+        o["obs"] = snap_obs(&to, &ch.probes);
+        let wi = snap_ints(&to);
+        o["res_wi"] = wres(&wi);
+        o["rec"] = recycle_obs(to.clone(), &ch.adds2, &ch.probes);
+        if reread != "no" {
+            let mut t2 = reuse_snap(&ch.r_snap, rb, &reuse);
+            let mut w3: Vec<Warning> = Vec::new();
+            let r = if reread == "bytes" {
+                match snap_bytes(&to) {
+                    Ok(b) => {
+                        let mut buf = Vec::new();
+                        out_of(&vh_common::guarded(CALL_MS, || t2.read(&mut w3, &mut buf, &b)))
+                    }
+                    Err(m) => format!("write-{}", m),
+                }
+            } else {
+                match &wi {
+                    Ok(x) => out_of(&vh_common::guarded(CALL_MS, || t2.read_from_ints(&mut w3, x))),
+                    Err(m) => format!("write-{}", m),
+                }
+            };
+            o["rr"] = json!({"form": reread, "out": r, "warn": warns(&w3), "wi": wres(&snap_ints(&t2)), "obs": snap_obs(&t2, &ch.probes)});
+            if r == "ok" {
+                to = t2;
+            }
+        }
+        ch.r_snap.push(to);
+    }
+    o["stored"] = json!(true);
+    o
+}
+fn chain_step(ch: &mut Chain, s: &Value) -> Value {
+    ch.n += 1;
+    let mut e = json!({"op": "chain", "n": ch.n, "lvl": if ch.snap_level {"snap"} else {"raw"}, "step": s.clone(), "hdr": ch.header()});
+    if ch.snap_level {
+        e["probes"] = ch.jprobes.clone();
+        e["adds2"] = ch.jadds2.clone();
+    }
+    let kind = s["k"].as_str().unwrap_or("next").to_string();
+    let rb = (s["rb"].as_u64().unwrap_or(1) as usize).saturating_sub(1);
+    if !remembered(rb, ch.n_store()) {
+        e["bad_index"] = json!(true);
+        return e;
+    }
+    if kind == "again" {
+        e["rcv"] = chain_receive(ch, rb, None, s);
+        if e["rcv"]["stored"] == json!(true) && !ch.snap_level {
+            ch.ref_raw.push(None);
+        }
+        return e;
+    }
+    let sb = (s["sb"].as_u64().unwrap_or(1) as usize).saturating_sub(1);
+    if !remembered(sb, ch.n_hist()) {
+        e["bad_index"] = json!(true);
+        return e;
+    }
+    let osz = osz_in(&s["osz"]);
+    let via_bytes = s["via"] == json!("bytes");
+    let nh = ch.n_hist();
+    let sync = ch.pair[sb] == Some(rb);
+    let mut new_ref: Option<RawSnap> = None;
+    // ---- the sender builds the next snapshot
+    let contract;
+    if !ch.snap_level {
+        let items = raw_items_in(&s["items"]);
+        let mut b = if s["bld"] == json!("recycle") {
+            // a builder recycled from an old snapshot object of the sender
+            let old = if nh > KEEP + 1 { std::mem::take(&mut ch.s_raw[nh - KEEP - 1]) } else { ch.s_raw[nh - 1].clone() };
+            old.recycle()
+        } else {
+            RawBuilder::new()
+        };
+        let mut outs = Vec::new();
+        for it in &items {
+            let r = vh_common::guarded(CALL_MS, || b.add_item(it.t, it.i, &it.d));
+            outs.push(out_of(&r));
+        }
+        let bs = b.finish();
+        e["snd"] = json!({"outs": outs, "wi": wres(&snap_write_ints(&bs)), "crc": vh_common::guarded(CALL_MS, || bs.crc()).unwrap_or(0)});
+        let a = &ch.s_raw[sb];
+        // contracts of Delta::create (common keys agree on the length) and Delta::write (pre-agreed sizes)
+        let compatible = bs.items().all(|x| a.item(x.raw_type_id, x.id).map(|d| d.len() == x.data.len()).unwrap_or(true));
+        let writable = bs.items().all(|x| osz.get(&x.raw_type_id).map(|&z| z as usize == x.data.len()).unwrap_or(true));
+        contract = compatible && writable;
+        if contract {
+            let rc = {
+                let Chain { s_delta, s_raw, .. } = &mut *ch;
+                vh_common::guarded(CALL_MS, || s_delta.create_raw(&s_raw[sb], &bs))
+            };
+            e["create"] = json!(if rc.is_ok() { "ok" } else { "panic" });
+            e["create_note"] = panic_note(&rc);
+            if rc.is_ok() {
+                // the DDNet reference on the same step; its delta goes to the receiver chain fed by reference deltas
+                let a_items = items_of_raw(&ch.s_raw[sb]);
+                let b_items = items_of_raw(&bs);
+                if reference_ok(&a_items, &b_items, &osz) {
+                    let built = vh_common::catch(|| (ref_build(&a_items), ref_build(&b_items)));
+                    if let Ok(((ra, Some(_)), (rbb, Some(rwb)))) = built {
+                        let rd = vh_common::catch(|| ref_delta(&ra, &rbb, &osz)).unwrap_or(None);
+                        e["ref"] = json!({"wb": rwb, "dw_out": if rd.is_some() {"ok"} else {"capacity"}, "dw": rd.clone().unwrap_or_default()});
+                        if let (Some(rd), Some(Some(base))) = (rd, ch.ref_raw.get(rb)) {
+                            let (o, obj) = if rd.is_empty() { apply_wire_obj(base, None, None, &osz, false) } else { apply_wire_obj(base, Some(&rd), None, &osz, false) };
+                            e["r_ref"] = o;
+                            new_ref = obj;
+                        }
+                    }
+                }
+            }
+        }
+        ch.s_raw.push(bs);
+    } else {
+        let src = s["src"]["k"].as_str().unwrap_or("fresh").to_string();
+        let j = (s["src"]["j"].as_u64().unwrap_or(1) as usize).saturating_sub(1);
+        let o_ = (s["src"]["o"].as_u64().unwrap_or(1) as usize).saturating_sub(1);
+        if src != "fresh" && (!remembered(j, nh) || (src == "like" && !remembered(o_, nh))) {
+            e["bad_index"] = json!(true);
+            return e;
+        }
+        let rb_ = vh_common::guarded(CALL_MS, || match src.as_str() {
+            "recycle" => ch.s_snap[j].clone().recycle(),
+            "like" => ch.s_snap[o_].clone().recycle_like(&ch.s_snap[j]),
+            _ => Builder::new(),
+        });
+        let adds = adds_in(&s["adds"]);
+        let mut snd = json!({"src_out": if rb_.is_ok() {"ok"} else {"panic"}, "src_note": panic_note(&rb_)});
+        let mut b = match rb_ {
+            Ok(b) => b,
+            Err(_) => {
+                e["snd"] = snd;
+                return e;
+            }
+        };
+        let mut outs = Vec::new();
+        for a in &adds {
+            let r = vh_common::guarded(CALL_MS, || b.add_item(a.ty, a.i, &a.d));
+            outs.push(out_of(&r));
+        }
+        let bs = b.finish();
+        let wi = snap_ints(&bs);
+        snd["outs"] = json!(outs);
+        snd["wi"] = wres(&wi);
+        snd["obs"] = snap_obs(&bs, &ch.probes);
+        e["snd"] = snd;
+        let raw_of = |x: &Snap| -> Option<RawSnap> {
+            let w = snap_ints(x).ok()?;
+            let mut r = RawSnap::empty();
+            r.read_from_ints(&mut libtw2_warn::Ignore, &w).ok()?;
+            Some(r)
+        };
+        contract = match (raw_of(&ch.s_snap[sb]), raw_of(&bs)) {
+            (Some(ra), Some(rs)) => {
+                rs.items().all(|x| ra.item(x.raw_type_id, x.id).map(|d| d.len() == x.data.len()).unwrap_or(true))
+                    && rs.items().all(|x| osz.get(&x.raw_type_id).map(|&z| z as usize == x.data.len()).unwrap_or(true))
+            }
+            _ => false,
+        };
+        if contract {
+            let rc = {
+                let Chain { s_delta, s_snap, .. } = &mut *ch;
+                vh_common::guarded(CALL_MS, || s_delta.create(&s_snap[sb], &bs))
+            };
+            e["create"] = json!(if rc.is_ok() { "ok" } else { "panic" });
+            e["create_note"] = panic_note(&rc);
+        }
+        ch.s_snap.push(bs);
+    }
+    e["contract"] = json!(contract);
+    let mut stored = false;
+    if contract && e["create"] == json!("ok") {
+        // ---- the delta travels in its wire form
+        let dw = delta_write_ints(&ch.s_delta, &osz);
+        e["dw"] = wres(&dw);
+        let wire = if via_bytes {
+            let x = delta_write_bytes(&ch.s_delta, &osz);
+            e["dwb"] = wres(&x);
+            x.ok().map(Wire::Bytes)
+        } else {
+            dw.ok().map(Wire::Ints)
+        };
+        // ---- the receiver applies it to the snapshot it obtained earlier
+        if let Some(w) = wire {
+            let r = chain_receive(ch, rb, Some((&w, &osz)), s);
+            stored = r["stored"] == json!(true);
+            e["rcv"] = r;
+        }
+    }
+    if stored && !ch.snap_level {
+        ch.ref_raw.push(new_ref);
+    }
+    let ns = ch.n_store();
+    ch.pair.push(if sync && stored { Some(ns - 1) } else { None });
+    // forget what is out of reach (keeps long chains cheap)
+    let (nh, ns) = (ch.n_hist(), ch.n_store());
+    if nh > KEEP + 2 {
+        if ch.snap_level { ch.s_snap[nh - KEEP - 2] = Snap::empty(); } else { ch.s_raw[nh - KEEP - 2] = RawSnap::empty(); }
+    }
+    if ns > KEEP + 2 {
+        if ch.snap_level { ch.r_snap[ns - KEEP - 2] = Snap::empty(); } else { ch.r_raw[ns - KEEP - 2] = RawSnap::empty(); ch.ref_raw[ns - KEEP - 2] = None; }
+    }
+    e
+}
+fn op_chain(c: &Value) -> Vec<Value> {
+    let mut ch = Chain::new(c);
+    let mut out = Vec::new();
+    for s in c["steps"].as_array().cloned().unwrap_or_default() {
+        out.push(chain_step(&mut ch, &s));
+    }
+    out
+}
+
+// ---------------------------------------------------------------- op "api"
+// The public functions of snap.rs / format.rs that the other ops only use indirectly: key
+// helpers, UUID <-> item data, item deltas, the header codecs, enumeration order and announced
+// lengths of the item iterators, look-ups of absent keys, buffers that are too small, finish on
+// an empty builder, recycled raw builders, TypeId conversions, one delta written with several
+// size tables. Everything observed is logged; SnapAlgTrace.tla (JudgeApi) judges.
+fn opt_ints(v: &Value) -> Option<Vec<i32>> {
+    if v.is_array() { Some(ints(v)) } else { None }
+}
+fn item_delta_out(r: &Result<Result<(), libtw2_snapshot::format::DeltaDifferingSizes>, String>) -> &'static str {
+    match r {
+        Err(_) => "panic",
+        Ok(Err(_)) => "DeltaDifferingSizes",
+        Ok(Ok(())) => "ok",
+    }
+}
+fn op_api(c: &Value) -> Value {
+    use libtw2_snapshot::format;
+    let arr = |v: &Value| if v.is_array() { v.clone() } else { json!([]) };
+    let mut e = json!({"op": "api", "keys": arr(&c["keys"]), "kints": arr(&c["kints"]), "udata": arr(&c["udata"]), "dpairs": arr(&c["dpairs"]),
+                       "hw": arr(&c["hw"]), "items": arr(&c["items"]), "probe": arr(&c["probe"]), "adds": arr(&c["adds"]), "sprobe": arr(&c["sprobe"]),
+                       "osz": arr(&c["osz"]), "osz2": arr(&c["osz2"]), "cap": c["cap"].as_u64().unwrap_or(1)});
+    // ---- key helpers
+    let mut ko = Vec::new();
+    for k in c["keys"].as_array().cloned().unwrap_or_default() {
+        let (t, i) = (k[0].as_u64().unwrap() as u16, k[1].as_u64().unwrap() as u16);
+        let r = vh_common::guarded(CALL_MS, || {
+            let x = format::key(t, i);
+            let it = format::RawItem { raw_type_id: t, id: i, data: &[] };
+            let fk = format::RawItem::from_key(x, &[]);
+            json!({"key": x, "t": format::key_to_raw_type_id(x), "i": format::key_to_id(x), "rk": it.key(), "fk": [fk.raw_type_id, fk.id]})
+        });
+        ko.push(r.unwrap_or(json!({"panic": true})));
+    }
+    e["keys_out"] = json!(ko);
+    let mut xo = Vec::new();
+    for x in ints(&c["kints"]) {
+        let r = vh_common::guarded(CALL_MS, || {
+            let (t, i) = (format::key_to_raw_type_id(x), format::key_to_id(x));
+            json!({"t": t, "i": i, "back": format::key(t, i)})
+        });
+        xo.push(r.unwrap_or(json!({"panic": true})));
+    }
+    e["kints_out"] = json!(xo);
+    // ---- UUID <-> item data
+    let mut uo = Vec::new();
+    for d in c["udata"].as_array().cloned().unwrap_or_default() {
+        let d = ints(&d);
+        let r = vh_common::guarded(CALL_MS, || {
+            let mut w: Vec<Warning> = Vec::new();
+            match format::item_data_to_uuid(&mut w, &d) {
+                Some(u) => json!({"some": true, "bytes": u.as_bytes().to_vec(), "back": format::uuid_to_item_data(u).to_vec(), "warn": warns(&w),
+                                  "ty": ty_out(TypeId::from(u))}),
+                None => json!({"some": false, "bytes": [], "back": [], "warn": warns(&w), "ty": []}),
+            }
+        });
+        uo.push(r.unwrap_or(json!({"panic": true})));
+    }
+    e["udata_out"] = json!(uo);
+    // ---- item deltas
+    let mut po = Vec::new();
+    for p in c["dpairs"].as_array().cloned().unwrap_or_default() {
+        let a = opt_ints(&p["a"]);
+        let b = ints(&p["b"]);
+        let mut delta = vec![0i32; b.len()];
+        let r1 = vh_common::guarded(CALL_MS, || format::create_item_delta(a.as_deref(), &b, &mut delta));
+        let mut o = json!({"create": item_delta_out(&r1), "delta": delta});
+        if item_delta_out(&r1) == "ok" {
+            let mut out = vec![0i32; delta.len()];
+            let r2 = vh_common::guarded(CALL_MS, || format::apply_item_delta(a.as_deref(), &delta, &mut out));
+            o["apply"] = json!(item_delta_out(&r2));
+            o["out"] = json!(out);
+        }
+        // the difference `b` itself applied to `a` (sizes may disagree: an error, not a panic)
+        let mut out2 = vec![0i32; b.len()];
+        let r3 = vh_common::guarded(CALL_MS, || format::apply_item_delta(a.as_deref(), &b, &mut out2));
+        o["patch"] = json!(item_delta_out(&r3));
+        o["patched"] = json!(out2);
+        po.push(o);
+    }
+    e["dpairs_out"] = json!(po);
+    // ---- header codecs
+    if c["hw"].is_array() {
+        let hw = ints(&c["hw"]);
+        let hb = enc_ints(&hw);
+        let sh = |r: Result<Result<format::SnapHeader, libtw2_snapshot::snap::Error>, String>| match r {
+            Err(_) => json!({"out": "panic"}),
+            Ok(Err(x)) => json!({"out": format!("{:?}", x)}),
+            Ok(Ok(h)) => json!({"out": "ok", "data_size": h.data_size, "num_items": h.num_items}),
+        };
+        let dh = |r: Result<Result<format::DeltaHeader, libtw2_snapshot::snap::Error>, String>, w: &[Warning]| match r {
+            Err(_) => json!({"out": "panic"}),
+            Ok(Err(x)) => json!({"out": format!("{:?}", x)}),
+            Ok(Ok(h)) => json!({"out": "ok", "nd": h.num_deleted_items, "nu": h.num_updated_items, "warn": warns(w)}),
+        };
+        let mut o = json!({"bytes": jbytes(&hb)});
+        o["snap_obj"] = sh(vh_common::guarded(CALL_MS, || format::SnapHeader::decode_obj(&mut IntUnpacker::new(&hw))));
+        let mut w0: Vec<Warning> = Vec::new();
+        o["snap_bytes"] = sh(vh_common::guarded(CALL_MS, || format::SnapHeader::decode(&mut w0, &mut Unpacker::new(&hb))));
+        let mut w1: Vec<Warning> = Vec::new();
+        let r1 = vh_common::guarded(CALL_MS, || format::DeltaHeader::decode_obj(&mut w1, &mut IntUnpacker::new(&hw)));
+        o["delta_obj"] = dh(r1, &w1);
+        let mut w2: Vec<Warning> = Vec::new();
+        let r2 = vh_common::guarded(CALL_MS, || format::DeltaHeader::decode(&mut w2, &mut Unpacker::new(&hb)));
+        o["delta_bytes"] = dh(r2, &w2);
+        if hw.len() >= 2 {
+            let h = format::DeltaHeader { num_deleted_items: hw[0], num_updated_items: hw[1] };
+            o["enc_obj"] = json!(vh_common::guarded(CALL_MS, || h.encode_obj().to_vec()).unwrap_or_default());
+            let eb = vh_common::guarded(CALL_MS, || {
+                let mut buf: Vec<u8> = Vec::with_capacity(32);
+                with_packer(&mut buf, |p| h.encode(p).map(|x| x.to_vec()))
+            });
+            o["enc_bytes"] = match eb {
+                Ok(Ok(b)) => json!({"out": "ok", "v": jbytes(&b)}),
+                Ok(Err(_)) => json!({"out": "capacity", "v": []}),
+                Err(_) => json!({"out": "panic", "v": []}),
+            };
+        }
+        e["hdr_out"] = o;
+    }
+    // ---- the raw snapshot: enumeration, look-ups, short buffers, recycling
+    let items = raw_items_in(&c["items"]);
+    let (raw, outs) = build_raw(&items);
+    let cap = c["cap"].as_u64().unwrap_or(1) as usize;
+    let enumr = vh_common::guarded(CALL_MS, || {
+        let mut it = raw.items();
+        let mut order = Vec::new();
+        let mut lens = vec![it.len()];
+        let mut hints = vec![json!([it.size_hint().0, it.size_hint().1])];
+        while let Some(x) = it.next() {
+            order.push(json!([x.raw_type_id, x.id]));
+            lens.push(it.len());
+            hints.push(json!([it.size_hint().0, it.size_hint().1]));
+        }
+        json!({"order": order, "lens": lens, "hints": hints})
+    });
+    let looks = vh_common::guarded(CALL_MS, || {
+        Value::Array(c["probe"].as_array().cloned().unwrap_or_default().iter().map(|p| {
+            match raw.item(p[0].as_u64().unwrap() as u16, p[1].as_u64().unwrap() as u16) {
+                Some(d) => json!({"some": true, "d": d}),
+                None => json!({"some": false, "d": []}),
+            }
+        }).collect())
+    });
+    let wi = snap_write_ints(&raw);
+    let wb = snap_write_bytes(&raw);
+    let mut ro = json!({"outs": outs, "enum_out": if enumr.is_ok() {"ok"} else {"panic"}, "enum": enumr.unwrap_or(json!({"order": [], "lens": [], "hints": []})),
+                        "look_out": if looks.is_ok() {"ok"} else {"panic"}, "look": looks.unwrap_or(json!([])),
+                        "crc": vh_common::guarded(CALL_MS, || raw.crc()).unwrap_or(0), "wi": wres(&wi), "wb": wres(&wb)});
+    if let (Ok(x), Ok(b)) = (&wi, &wb) {
+        // buffers that are `cap` too short, and exactly long enough
+        let short_i = vh_common::guarded(CALL_MS, || {
+            let mut buf = Vec::new();
+            let mut out = vec![0i32; x.len().saturating_sub(cap)];
+            raw.write_to_ints(&mut buf, &mut out).map(|r| r.len()).map_err(|_| ())
+        });
+        let exact_i = vh_common::guarded(CALL_MS, || {
+            let mut buf = Vec::new();
+            let mut out = vec![0i32; x.len()];
+            raw.write_to_ints(&mut buf, &mut out).map(|r| r.to_vec()).map_err(|_| ())
+        });
+        let short_b = vh_common::guarded(CALL_MS, || {
+            let mut buf = Vec::new();
+            let mut out: Vec<u8> = Vec::with_capacity(b.len().saturating_sub(cap));
+            with_packer(&mut out, |p| raw.write(&mut buf, p).map(|r| r.len()).map_err(|_| ()))
+        });
+        let so = |r: &Result<Result<usize, ()>, String>| match r { Err(_) => "panic", Ok(Err(())) => "capacity", Ok(Ok(_)) => "ok" };
+        ro["short_ints"] = json!(so(&short_i));
+        ro["short_bytes"] = json!(so(&short_b));
+        ro["exact_ints"] = match exact_i { Err(_) => json!({"out": "panic", "v": []}), Ok(Err(())) => json!({"out": "capacity", "v": []}), Ok(Ok(v)) => json!({"out": "ok", "v": v}) };
+    }
+    // the snapshot recycled into a raw builder: nothing of it is left, the items go in reversed
+    let rec = vh_common::guarded(CALL_MS, || {
+        let mut b = raw.clone().recycle();
+        let mut outs = Vec::new();
+        for it in items.iter().rev() {
+            outs.push(match b.add_item(it.t, it.i, &it.d) { Ok(()) => "ok".to_string(), Err(x) => format!("{:?}", x) });
+        }
+        let s2 = b.finish();
+        json!({"outs": outs, "wi": wres(&snap_write_ints(&s2))})
+    });
+    ro["recycled_out"] = json!(if rec.is_ok() { "ok" } else { "panic" });
+    ro["recycled"] = rec.unwrap_or(json!({"outs": [], "wi": {"out": "panic", "v": []}}));
+    ro["empty_finish"] = wres(&snap_write_ints(&RawBuilder::new().finish()));
+    ro["empty"] = wres(&snap_write_ints(&RawSnap::empty()));
+    e["raw"] = ro;
+    // ---- one delta written with several size tables
+    let osz = osz_in(&c["osz"]);
+    let osz2 = osz_in(&c["osz2"]);
+    let fits = |t: &BTreeMap<u16, u32>| raw.items().all(|x| t.get(&x.raw_type_id).map(|&z| z as usize == x.data.len()).unwrap_or(true));
+    let mut d = Delta::new();
+    let empty = RawSnap::empty();
+    let rc = vh_common::guarded(CALL_MS, || d.create_raw(&empty, &raw));
+    let mut dobj = json!({"create": if rc.is_ok() {"ok"} else {"panic"}, "fits1": fits(&osz), "fits2": fits(&osz2)});
+    if rc.is_ok() {
+        if fits(&osz) {
+            let w1 = delta_write_ints(&d, &osz);
+            dobj["w1"] = wres(&w1);
+            if let Ok(x) = &w1 {
+                dobj["r11"] = apply_wire(&empty, Some(x), None, &osz, false);
+                // the same integers read with the other table: any outcome but a panic
+                dobj["r12"] = apply_wire(&empty, Some(x), None, &osz2, false);
+            }
+        }
+        if fits(&osz2) {
+            let w2 = delta_write_bytes(&d, &osz2);
+            dobj["w2b"] = wres(&w2);
+            dobj["w2"] = wres(&delta_write_ints(&d, &osz2));
+            if let Ok(b) = &w2 {
+                dobj["r22"] = apply_wire(&empty, None, Some(b), &osz2, false);
+            }
+        }
+        let cl = vh_common::guarded(CALL_MS, || {
+            d.clear();
+        });
+        dobj["clear"] = json!(if cl.is_ok() { "ok" } else { "panic" });
+        dobj["cleared"] = wres(&delta_write_ints(&d, &osz));
+        dobj["new"] = wres(&delta_write_ints(&Delta::new(), &osz));
+    }
+    e["delta"] = dobj;
+    // ---- the Snap level: enumeration order and announced lengths, look-ups, finish on empty, TypeId
+    let adds = adds_in(&c["adds"]);
+    let mut b = Builder::new();
+    let mut souts = Vec::new();
+    for a in &adds {
+        let r = vh_common::guarded(CALL_MS, || b.add_item(a.ty, a.i, &a.d));
+        souts.push(out_of(&r));
+    }
+    let sn = b.finish();
+    let enums = vh_common::guarded(CALL_MS, || {
+        let mut it = sn.items();
+        let mut order = Vec::new();
+        let mut lens = vec![it.len()];
+        let mut hints = vec![json!([it.size_hint().0, it.size_hint().1])];
+        while let Some(x) = it.next() {
+            order.push(json!({"ty": ty_out(x.type_id), "i": x.id, "d": x.data}));
+            lens.push(it.len());
+            hints.push(json!([it.size_hint().0, it.size_hint().1]));
+        }
+        json!({"order": order, "lens": lens, "hints": hints})
+    });
+    let sprobes: Vec<(TypeId, u16)> = c["sprobe"].as_array().cloned().unwrap_or_default().iter().map(|p| (ty_in(&p[0]), p[1].as_u64().unwrap() as u16)).collect();
+    let slook = looks_out(&sn, &sprobes);
+    let empty_snap = Builder::new().finish();
+    let tyconv: Vec<Value> = adds.iter().map(|a| match a.ty {
+        TypeId::Ordinal(o) => json!({"from": ty_out(TypeId::from(o)), "shown": format!("{}", TypeId::from(o))}),
+        TypeId::Uuid(u) => json!({"from": ty_out(TypeId::from(u)), "shown": format!("{}", TypeId::from(u))}),
+    }).collect();
+    e["snap"] = json!({"outs": souts, "enum_out": if enums.is_ok() {"ok"} else {"panic"}, "enum": enums.unwrap_or(json!({"order": [], "lens": [], "hints": []})),
+                       "look_out": if slook.is_ok() {"ok"} else {"panic"}, "look": slook.unwrap_or(json!([])),
+                       "crc": vh_common::guarded(CALL_MS, || sn.crc()).unwrap_or(0), "wi": wres(&snap_ints(&sn)),
+                       "empty_finish": wres(&snap_ints(&empty_snap)), "empty_n": vh_common::guarded(CALL_MS, || empty_snap.items().len()).unwrap_or(99),
+                       "empty": wres(&snap_ints(&Snap::empty())), "tyconv": tyconv});
+    e
+}
+
 thread_local! {
     static CUR_FILE: RefCell<Option<String>> = RefCell::new(None);
 }
@@ -759,8 +1478,7 @@ fn used_delta() -> Delta {
     d
 }
 
-fn run_case(c: &Value) -> Value {
-    PREV.with(|p| *p.borrow_mut() = if c["prev"].as_array().map(|a| !a.is_empty()).unwrap_or(false) { Some(ints(&c["prev"])) } else { None });
+fn announce_case(c: &Value) {
     let cs = c.to_string();
     // the case about to run, for the post-mortem of a process abort (allocation failure, ...)
     CUR_FILE.with(|f| {
@@ -769,16 +1487,24 @@ fn run_case(c: &Value) -> Value {
         }
     });
     vh_common::set_case(&cs);
-    let mut e = match c["op"].as_str().unwrap_or("") {
-        "pair" => op_pair(c),
-        "snap" => op_snap(c),
-        "parse" => op_parse(c),
-        other => json!({"op": "unknown", "what": other}),
+}
+fn run_case(c: &Value) -> Vec<Value> {
+    PREV.with(|p| *p.borrow_mut() = if c["prev"].as_array().map(|a| !a.is_empty()).unwrap_or(false) { Some(ints(&c["prev"])) } else { None });
+    announce_case(c);
+    let mut es = match c["op"].as_str().unwrap_or("") {
+        "pair" => vec![op_pair(c)],
+        "snap" => vec![op_snap(c)],
+        "parse" => vec![op_parse(c)],
+        "chain" => op_chain(c),
+        "api" => vec![op_api(c)],
+        other => vec![json!({"op": "unknown", "what": other})],
     };
     if c["prev"].is_array() {
-        e["prev"] = c["prev"].clone();
+        for e in es.iter_mut() {
+            e["prev"] = c["prev"].clone();
+        }
     }
-    e
+    es
 }
 
 // ---------------------------------------------------------------- random driver (direction B)
@@ -1212,6 +1938,265 @@ fn drive_parse_inner(r: &mut StdRng) -> Value {
     }
 }
 
+// ---------------------------------------------------------------- random chains (direction B)
+/// Length of a new item of type `t` (raw level): pre-agreed types follow the tables the driver
+/// uses, the others take any length when the key is new to the recent snapshots.
+fn chain_len(t: u16, r: &mut StdRng) -> usize {
+    if (1..=20).contains(&t) {
+        SIZES06[t as usize - 1] as usize
+    } else if t == 63 {
+        0
+    } else {
+        *[0usize, 0, 1, 1, 2, 3, 4, 7].get(r.gen_range(0..8)).unwrap()
+    }
+}
+struct RawGen {
+    cur: BTreeMap<(u16, u16), Vec<i32>>,
+    /// key -> length in the recent snapshots (what Delta::create wants to agree), newest last
+    recent: Vec<BTreeMap<(u16, u16), usize>>,
+    pool: Vec<(u16, u16)>,
+    max_items: usize,
+    allow_high: bool,
+}
+fn gen_raw_items(g: &mut RawGen, r: &mut StdRng) -> Vec<Value> {
+    let mut next: BTreeMap<(u16, u16), Vec<i32>> = BTreeMap::new();
+    let turn = r.gen_range(0..10);
+    for (k, d) in &g.cur {
+        match r.gen_range(0..20) {
+            0..=2 => {}
+            3 if turn == 0 => {}
+            4..=11 => {
+                next.insert(*k, d.clone());
+            }
+            _ => {
+                let d2: Vec<i32> = d.iter().map(|&x| if r.gen_bool(0.5) { x } else if r.gen_bool(0.5) { x.wrapping_add(rnd_val(r)) } else { rnd_val(r) }).collect();
+                next.insert(*k, d2);
+            }
+        }
+    }
+    let room = g.max_items.saturating_sub(next.len());
+    let n_add = if room == 0 { 0 } else { r.gen_range(0..=room.min(if g.max_items > 100 { 60 } else { 6 })) };
+    let mut ints_total: usize = next.values().map(|d| d.len()).sum();
+    for _ in 0..n_add {
+        let k = if !g.pool.is_empty() && r.gen_bool(0.6) { g.pool[r.gen_range(0..g.pool.len())] } else { (rnd_type(r, g.allow_high).0, rnd_id(r)) };
+        if next.contains_key(&k) {
+            continue;
+        }
+        // a key the recent snapshots know keeps its length; otherwise a new one is drawn: an item of
+        // an explicit-size type comes back with another size after it was away long enough
+        let len = g.recent.iter().rev().find_map(|m| m.get(&k).copied()).unwrap_or_else(|| chain_len(k.0, r));
+        if next.len() >= 1024 || 2 * (next.len() + 1) + ints_total + len > 16382 {
+            continue;
+        }
+        ints_total += len;
+        next.insert(k, (0..len).map(|_| rnd_val(r)).collect());
+        if !g.pool.contains(&k) && g.pool.len() < 4000 {
+            g.pool.push(k);
+        }
+    }
+    g.recent.push(next.iter().map(|(k, d)| (*k, d.len())).collect());
+    if g.recent.len() > KEEP + 2 {
+        g.recent.remove(0);
+    }
+    g.cur = next.clone();
+    let mut v: Vec<Value> = next.into_iter().map(|((t, i), d)| json!({"t": t, "i": i, "d": d})).collect();
+    match r.gen_range(0..4) {
+        0 => {}
+        1 => v.reverse(),
+        _ => v.shuffle(r),
+    }
+    if r.gen_bool(0.03) && !v.is_empty() {
+        // the same key twice: the second add is refused
+        let d = v[r.gen_range(0..v.len())].clone();
+        v.push(d);
+    }
+    v
+}
+struct SnapGen {
+    keys: Vec<(Vec<i32>, u16)>,
+    len_of: BTreeMap<Vec<i32>, usize>,
+    cur: BTreeMap<(Vec<i32>, u16), Vec<i32>>,
+}
+fn gen_snap_adds(g: &mut SnapGen, r: &mut StdRng) -> Vec<Value> {
+    let mut next: BTreeMap<(Vec<i32>, u16), Vec<i32>> = BTreeMap::new();
+    let mut v = Vec::new();
+    let mut order: Vec<usize> = (0..g.keys.len()).collect();
+    order.shuffle(r);
+    let calm = r.gen_bool(0.5);
+    for j in order {
+        let k = g.keys[j].clone();
+        let had = g.cur.get(&k).cloned();
+        let take = match &had {
+            Some(_) => r.gen_bool(if calm { 0.9 } else { 0.6 }),
+            None => r.gen_bool(if calm { 0.1 } else { 0.35 }),
+        };
+        if !take {
+            continue;
+        }
+        let len = g.len_of[&k.0];
+        let d: Vec<i32> = match had {
+            Some(d) if r.gen_bool(0.4) => d,
+            Some(d) => d.iter().map(|&x| if r.gen_bool(0.5) { x } else { x.wrapping_add(rnd_val(r)) }).collect(),
+            None => (0..len).map(|_| rnd_val(r)).collect(),
+        };
+        v.push(json!({"ty": k.0, "i": k.1, "d": d}));
+        next.insert(k, d);
+    }
+    if r.gen_bool(0.05) && !v.is_empty() {
+        let d = v[r.gen_range(0..v.len())].clone();
+        v.push(d);
+    }
+    g.cur = next;
+    v
+}
+fn drive_chain(r: &mut StdRng, fam: &str) -> Vec<Value> {
+    let snap_level = fam == "chainsnap";
+    let wrong = fam == "chainwrong";
+    let class = r.gen_range(0..100);
+    let (max_items, len) = if snap_level {
+        (0, r.gen_range(6..30))
+    } else if class < 86 {
+        (r.gen_range(2..40), r.gen_range(8..40))
+    } else if class < 97 {
+        (r.gen_range(40..300), r.gen_range(4..10))
+    } else {
+        (1024, r.gen_range(3..6))
+    };
+    let mut hdr = json!({"op": "chain", "lvl": if snap_level {"snap"} else {"raw"}, "steps": []});
+    let mut sg = SnapGen { keys: Vec::new(), len_of: BTreeMap::new(), cur: BTreeMap::new() };
+    if snap_level {
+        let mut upool = Vec::new();
+        let n_u = r.gen_range(1..6);
+        let ulen = r.gen_range(0..4);
+        let mut tys: Vec<Vec<i32>> = (0..n_u).map(|_| rnd_uuid(r, &mut upool)).collect();
+        tys.sort();
+        tys.dedup();
+        for t in &tys {
+            sg.len_of.insert(t.clone(), ulen);
+        }
+        for o in [1, 5, 20, 0x3fff] {
+            if r.gen_bool(0.5) {
+                sg.len_of.insert(vec![o], r.gen_range(0..5));
+                tys.push(vec![o]);
+            }
+        }
+        for _ in 0..r.gen_range(2..14) {
+            let t = tys[r.gen_range(0..tys.len())].clone();
+            let k = (t, if r.gen_bool(0.6) { r.gen_range(0..3) } else { rnd_id(r) });
+            if !sg.keys.contains(&k) {
+                sg.keys.push(k);
+            }
+        }
+        hdr["adds2"] = json!(rnd_adds(r, 3, &mut upool, false));
+        hdr["probe"] = Value::Array(sg.keys.iter().take(10).map(|(t, i)| json!([t, i])).collect());
+    }
+    let mut rg = RawGen { cur: BTreeMap::new(), recent: Vec::new(), pool: Vec::new(), max_items, allow_high: r.gen_bool(0.5) };
+    let mut ch = Chain::new(&hdr);
+    let mut out = Vec::new();
+    let mut steps: Vec<Value> = Vec::new();
+    // the size table of the ordinal types of a snap-level chain
+    let snap_osz: Vec<Value> = sg.len_of.iter().filter(|(t, _)| t.len() == 1 && r.gen_bool(0.7)).map(|(t, &l)| json!([t[0], l])).collect();
+    for _ in 0..len {
+        let nh = ch.n_hist();
+        let ns = ch.n_store();
+        let reuse = *["none", "prev", "prev", "base"].get(r.gen_range(0..4)).unwrap();
+        let reread = *["no", "no", "no", "ints", "bytes"].get(r.gen_range(0..5)).unwrap();
+        let recent_store: Vec<usize> = (0..ns).filter(|&j| remembered(j, ns)).collect();
+        if wrong && ch.have_delta && r.gen_bool(0.12) {
+            let rb = recent_store[r.gen_range(0..recent_store.len())];
+            let st = json!({"k": "again", "rb": rb + 1, "reuse": reuse, "reread": reread});
+            {
+                let mut all = steps.clone();
+                all.push(st.clone());
+                announce_case(&json!({"op": "chain", "lvl": hdr["lvl"], "adds2": hdr["adds2"], "probe": hdr["probe"], "steps": all}));
+            }
+            out.push(chain_step(&mut ch, &st));
+            steps.push(st);
+            continue;
+        }
+        // bases the two sides agree on (the empty snapshot always is one)
+        let agreed: Vec<usize> = (0..nh).filter(|&h| remembered(h, nh) && ch.pair[h].map(|s| remembered(s, ns)).unwrap_or(false)).collect();
+        let sb = if r.gen_bool(0.8) { *agreed.last().unwrap() } else { agreed[r.gen_range(0..agreed.len())] };
+        let mut rb = ch.pair[sb].unwrap();
+        if wrong && r.gen_bool(0.2) {
+            rb = recent_store[r.gen_range(0..recent_store.len())];
+        }
+        let via = if r.gen_bool(0.5) { "ints" } else { "bytes" };
+        let st = if snap_level {
+            let src = if nh == 1 || r.gen_bool(0.25) {
+                json!({"k": "fresh"})
+            } else {
+                let rec: Vec<usize> = (0..nh).filter(|&h| remembered(h, nh)).collect();
+                let j = if r.gen_bool(0.7) { nh - 1 } else { rec[r.gen_range(0..rec.len())] };
+                if r.gen_bool(0.25) { json!({"k": "like", "j": j + 1, "o": rec[r.gen_range(0..rec.len())] + 1}) } else { json!({"k": "recycle", "j": j + 1}) }
+            };
+            json!({"k": "next", "lvl": "snap", "src": src, "adds": gen_snap_adds(&mut sg, r), "sb": sb + 1, "rb": rb + 1, "osz": snap_osz,
+                   "via": via, "reread": reread, "reuse": reuse})
+        } else {
+            let osz = match r.gen_range(0..10) {
+                0..=4 => osz06(),
+                5..=7 => osz06_zero(),
+                _ => json!([]),
+            };
+            json!({"k": "next", "lvl": "raw", "items": gen_raw_items(&mut rg, r), "sb": sb + 1, "rb": rb + 1, "osz": osz,
+                   "via": via, "reread": reread, "reuse": reuse, "bld": if r.gen_bool(0.5) {"recycle"} else {"fresh"}})
+        };
+        {
+                let mut all = steps.clone();
+                all.push(st.clone());
+                announce_case(&json!({"op": "chain", "lvl": hdr["lvl"], "adds2": hdr["adds2"], "probe": hdr["probe"], "steps": all}));
+            }
+        out.push(chain_step(&mut ch, &st));
+        steps.push(st);
+    }
+    out
+}
+
+fn drive_api(r: &mut StdRng) -> Value {
+    let bnd16 = [0u16, 1, 0x3fff, 0x4000, 0x7fff, 0x8000, 0x8001, 0xfffe, 0xffff];
+    let mut keys = Vec::new();
+    for _ in 0..r.gen_range(1..6) {
+        let t = if r.gen_bool(0.5) { bnd16[r.gen_range(0..bnd16.len())] } else { r.gen() };
+        let i = if r.gen_bool(0.5) { bnd16[r.gen_range(0..bnd16.len())] } else { r.gen() };
+        keys.push(json!([t, i]));
+    }
+    let kints: Vec<i32> = (0..r.gen_range(1..6)).map(|_| rnd_val(r)).collect();
+    let udata: Vec<Vec<i32>> = (0..r.gen_range(1..4)).map(|_| (0..r.gen_range(0..7)).map(|_| rnd_val(r)).collect()).collect();
+    let mut dpairs = Vec::new();
+    for _ in 0..r.gen_range(1..5) {
+        let n = r.gen_range(0..6);
+        let b: Vec<i32> = (0..n).map(|_| rnd_val(r)).collect();
+        // without "a": there is no old item
+        dpairs.push(match r.gen_range(0..4) {
+            0 => json!({"b": b}),
+            1 => json!({"a": (0..r.gen_range(0..6)).map(|_| rnd_val(r)).collect::<Vec<i32>>(), "b": b}),
+            _ => json!({"a": (0..n).map(|_| rnd_val(r)).collect::<Vec<i32>>(), "b": b}),
+        });
+    }
+    let hw: Vec<i32> = (0..r.gen_range(0..5)).map(|_| if r.gen_bool(0.6) { r.gen_range(-1..5) } else { rnd_val(r) }).collect();
+    let n = size_class(r).min(if r.gen_bool(0.95) { 40 } else { 1024 });
+    let mut pool = Vec::new();
+    let mut items = rnd_raw(r, n, true, &mut pool);
+    match r.gen_range(0..3) {
+        0 => {}
+        1 => items.reverse(),
+        _ => items.shuffle(r),
+    }
+    let mut probe: Vec<Value> = items.iter().take(3).map(|x| json!([x["t"], x["i"]])).collect();
+    for _ in 0..3 {
+        probe.push(json!([rnd_type(r, true).0, rnd_id(r)]));
+    }
+    let mut upool = Vec::new();
+    let n_adds = r.gen_range(0..12);
+    let adds = rnd_adds(r, n_adds, &mut upool, false);
+    let mut sprobe: Vec<Value> = adds.iter().take(4).map(|a| json!([a["ty"], a["i"]])).collect();
+    sprobe.push(json!([[3], 0]));
+    sprobe.push(json!([rnd_uuid(r, &mut Vec::new()), 0]));
+    let tables = [osz06(), osz06_zero(), json!([])];
+    json!({"op": "api", "keys": keys, "kints": kints, "udata": udata, "dpairs": dpairs, "hw": hw, "items": items, "probe": probe,
+           "adds": adds, "sprobe": sprobe, "osz": tables[r.gen_range(0..3)], "osz2": tables[r.gen_range(0..3)], "cap": r.gen_range(1..4)})
+}
+
 // ---------------------------------------------------------------- main
 fn emit(out: &mut dyn Write, e: &Value) {
     writeln!(out, "{}", e).unwrap();
@@ -1240,8 +2225,9 @@ fn main() {
                     None
                 };
                 if let Some(c) = case {
-                    let e = run_case(&c);
-                    emit(&mut out, &e);
+                    for e in run_case(&c) {
+                        emit(&mut out, &e);
+                    }
                     n += 1;
                 }
             }
@@ -1256,13 +2242,22 @@ fn main() {
             let mut out = std::io::BufWriter::new(std::fs::File::create(&args[5]).unwrap());
             let mut r = StdRng::seed_from_u64(seed);
             for _ in 0..n {
+                if fam.starts_with("chain") {
+                    // chains are generated step by step from the state of the real objects
+                    for e in drive_chain(&mut r, fam) {
+                        emit(&mut out, &e);
+                    }
+                    continue;
+                }
                 let c = match fam {
                     "pair" => drive_pair(&mut r),
                     "snap" => drive_snap(&mut r),
+                    "api" => drive_api(&mut r),
                     _ => drive_parse(&mut r),
                 };
-                let e = run_case(&c);
-                emit(&mut out, &e);
+                for e in run_case(&c) {
+                    emit(&mut out, &e);
+                }
             }
             out.flush().unwrap();
             println!("CASES {}", n);
@@ -1272,8 +2267,9 @@ fn main() {
             let c = if v.get("replay").is_some() { v["replay"].clone() } else { v };
             CUR_FILE.with(|f| *f.borrow_mut() = Some(format!("{}.cur", &args[3])));
             let mut out = std::io::BufWriter::new(std::fs::File::create(&args[3]).unwrap());
-            let e = run_case(&c);
-            emit(&mut out, &e);
+            for e in run_case(&c) {
+                emit(&mut out, &e);
+            }
             out.flush().unwrap();
             println!("CASES 1");
         }
